@@ -732,6 +732,14 @@ package commitlog
 //@   ensures [none] err == ErrEntryNotFound ==> (forall i int64 :: 0 <= i && i < entryCount(s.Index) ==> entryOffAt(s.Index, i) < offset)
 //@ func newReverseIndexScanner serves C08, C10, C11
 //@   ensures result != nil && fresh(result) && result.idx == idx && result.offset == startOffset
+// a reverse read that steps back into an EARLIER segment goes on at that segment's last index entry - whatever offsets
+// the (possibly compacted) segment still holds: the slot is the entry count, not an offset difference
+//@ func newReverseIndexScannerFromEnd serves C08, C10, C11
+//@   assumes idx != nil && idx.position >= 0
+//@   ensures [starts-at-the-last-entry] result != nil && fresh(result) && result.idx == idx && result.offset == entryCount(idx) - 1
+//@ func newReverseSegmentScannerFromEnd serves C08, C10, C11
+//@   assumes segment != nil && segment.Index != nil && segment.Index.position >= 0
+//@   ensures [scans-this-segment-from-its-last-entry] result != nil && result.s == segment && result.ris != nil && result.ris.idx == segment.Index && result.ris.offset == entryCount(segment.Index) - 1
 //@ func newReverseSegmentScanner serves C08, C10, C11
 //@   requires segment != nil
 //@   assumes segment.Index != nil && segment.Index.position >= 0
@@ -748,10 +756,10 @@ package commitlog
 //
 // findSegment: the first segment whose next offset is above the argument (binary search; the segment list is
 // ordered by next offset - assumed at entry, it is the log's representation invariant)
-//@ func findSegment$1 serves C03, C01, C10, C11
+//@ func findSegment$1 serves C03, C01, C10, C11, C08
 //@   assumes 0 <= i && i < len(segments) && segments[i] != nil
 //@   ensures result == (nextOf(segments[i]) > offset)
-//@ func findSegment serves C03, C01, C10, C11
+//@ func findSegment serves C03, C01, C10, C11, C08
 //@   returns (seg, idx)
 //@   assumes forall i int :: 0 <= i && i < len(segments) ==> segments[i] != nil
 //@   assumes forall i int, j int :: 0 <= i && i < j && j < len(segments) ==> nextOf(segments[i]) <= nextOf(segments[j])
@@ -760,7 +768,7 @@ package commitlog
 //@   ensures [first-above] idx < len(segments) ==> nextOf(segments[idx]) > offset
 //@   ensures [none-before] forall i int :: 0 <= i && i < idx ==> nextOf(segments[i]) <= offset
 
-//@ func findSegmentContains serves C10, C01, C03
+//@ func findSegmentContains serves C10, C01, C03, C08
 //@   returns (seg, contains)
 //@   assumes forall i int :: 0 <= i && i < len(segments) ==> segments[i] != nil
 //@   assumes forall i int, j int :: 0 <= i && i < j && j < len(segments) ==> nextOf(segments[i]) <= nextOf(segments[j])
